@@ -14,6 +14,7 @@
  * every step of a scenario.
  */
 #include "vstate.h"
+#include "vctl.h"
 
 #include <dirent.h>
 #include <fcntl.h>
@@ -258,6 +259,18 @@ static const struct fdtab *fork_base;
 static void at_step(struct live *lv)
 {
     if (step_no++ != fork_at_step) return;
+    /* control clients may be attached when the fork happens (the child inherits their descriptors too) */
+    int cfd[8]; int ncfd = 0;
+    if (getenv("XCM_CTL") && !strcmp(getenv("XCM_CTL"), ctl_dir)) {
+        ncfd = vctl_connect_all(ctl_dir, cfd, NULL, 8);
+        unsigned char b[32];
+        for (int k = 0; k < 12; k++) {       /* let the owner accept them: it looks at the control descriptors on every fifth would-block call */
+            if (lv->cl) { SCX("xcm_receive", 0); xcm_receive(lv->cl, b, sizeof b); vs_leave(); }
+            if (lv->ac) { SCX("xcm_receive", 1); xcm_receive(lv->ac, b, sizeof b); vs_leave(); }
+            if (lv->sv) { SCX("xcm_accept", 2); struct xcm_socket *x = xcm_accept(lv->sv); vs_leave(); if (x && !lv->ac) lv->ac = x; else if (x) { struct xcm_socket *y = x; S_close(&y, 1); } }
+        }
+        if (ncfd) vobs("forks_with_control_clients_attached", 1);
+    }
     /* the owner sits in its event loop when the fork happens: conditions awaited, wake-up bells possibly ringing */
     if (lv->cl) { SCX("xcm_await", 0); xcm_await(lv->cl, XCM_SO_RECEIVABLE); vs_leave(); }
     if (lv->ac) { SCX("xcm_await", 1); xcm_await(lv->ac, XCM_SO_RECEIVABLE | XCM_SO_SENDABLE); vs_leave(); }
@@ -280,6 +293,7 @@ static void at_step(struct live *lv)
         exit(0);        /* LeakSanitizer judges the child's heap */
     }
     int st = 0; waitpid(pid, &st, 0);
+    for (int i = 0; i < ncfd; i++) close(cfd[i]);
     if (!(WIFEXITED(st) && WEXITSTATUS(st) == 0)) {
         char s2[64]; if (WIFSIGNALED(st)) snprintf(s2, sizeof s2, "sig%d", WTERMSIG(st)); else snprintf(s2, sizeof s2, "exit%d", WEXITSTATUS(st));
         char site[100]; snprintf(site, sizeof site, "cleanup-child:%s", s2);
